@@ -330,15 +330,10 @@ impl Lease for TtlLease {
             return false;
         }
 
-        // Quick check: iterate first 10 entries
-        // DashMap::iter().take(10) is cheap (early termination)
-        for entry in self.key_to_expiry.iter().take(10) {
-            if *entry.value() <= now {
-                return true;
-            }
-        }
-
-        false
+        // Scan until the first due entry (early termination). A bounded sample is not enough:
+        // a due key outside the sample would make every cleanup run return early and stay
+        // readable for as long as the sampled entries are live.
+        self.key_to_expiry.iter().any(|entry| *entry.value() <= now)
     }
 
     /// Get total number of keys with active leases.
